@@ -115,4 +115,18 @@ def gdl2 (L γ : Coef) (n : Nat) : Spec :=
     init := [],
     metrics := [gdl2Metric L γ n] }
 
+/-- `continuous_time_models.accelerated_gradient_flow_convex`: `x⋆ ↦ 0` (value leaf 0), `x_t ↦ 1`, `∇f(x_t) ↦ 2` (value leaf 1),
+`ẋ_t ↦ 3`; `ẍ_t = −3/t ẋ_t − ∇f(x_t)`; the metric is the derivative of `V = t²(f(x_t) − f⋆) + 2‖(x_t − x⋆) + t/2 ẋ_t‖²` -/
+def agfcXdd (t : Coef) : PDict := PDict.sub (PDict.smul (-3 / t) [(3, 1)]) [(2, 1)]
+def agfcMetric (t : Coef) : EDict :=
+  EDict.add
+    (EDict.add (EDict.smul (2 * t) (EDict.sub [(EKey.f 1, 1)] [(EKey.f 0, 1)])) (PDict.ip (PDict.smul (t * t) [(3, 1)]) [(2, 1)]))
+    (PDict.ip (PDict.smul 4 (PDict.add (PDict.sub [(1, 1)] [(0, 1)]) (PDict.smul (t / 2) [(3, 1)])))
+      (PDict.add (PDict.smul (3 / 2) [(3, 1)]) (PDict.smul (t / 2) (agfcXdd t))))
+
+def agfc (t : Coef) : Spec :=
+  { samples := [([(0, 1)], [], [(EKey.f 0, 1)]), ([(1, 1)], [(2, 1)], [(EKey.f 1, 1)])],
+    init := [],
+    metrics := [agfcMetric t] }
+
 end Pepit.Method
